@@ -157,6 +157,14 @@ def run_one(leg, case, stats, known):
         if pred(leg.name, case):
             stats.excluded[kname] += 1
             return None
+    if isinstance(case, dict) and "__sequence__" in case:
+        # a history of cases (produced by the re-evaluation in _run_shard): run them in order, the last one decides
+        problem = None
+        for sub in case["__sequence__"]:
+            problem = run_one(leg, sub, Stats(leg.name), known)
+        stats.evaluations += 1
+        stats.cases += 1
+        return problem
     note = Note()
     try:
         problem = leg.check(case, note)
@@ -213,11 +221,22 @@ def _run_shard(args):
             _run_machine(leg, stats, tier, seed, shard, nshards, n)
         elif leg.enum is not None:
             ctx = Ctx(tier, seed, shard, nshards, n)
+            prev = None
+            k = 0
             for case in leg.enum(ctx):
                 problem = run_one(leg, case, stats, known)
                 if problem is not None:
                     stats.failure = {"case": case, "problem": problem}
                     break
+                k += 1
+                if prev is not None and k % 16 == 0 and getattr(leg, "reeval", True):
+                    # decoders are functions: an earlier case evaluated again after a later one must still hold (caches, shared buffers)
+                    again = run_one(leg, prev, Stats(leg.name), known)
+                    if again is not None:
+                        stats.failure = {"case": {"__sequence__": [prev, case, prev]},
+                                         "problem": "held when first evaluated, fails when evaluated again after another case: " + again}
+                        break
+                prev = case
         else:
             _run_hyp(leg, stats, known, tier, seed, shard, nshards, n)
     except Exception:
@@ -244,12 +263,25 @@ def _run_hyp(leg, stats, known, tier, seed, shard, nshards, n):
     def t(case):
         if state["t_fail"] is not None and time.time() - state["t_fail"] > shrink_budget:
             return  # shrink budget exhausted: stop the shrinker making progress
+        if state.get("frozen"):
+            return
         problem = run_one(leg, case, stats, known)
         if problem is not None:
             stats.failure = {"case": case, "problem": problem}
             if state["t_fail"] is None:
                 state["t_fail"] = time.time()
             raise AssertionError(problem)
+        state["k"] = state.get("k", 0) + 1
+        prev = state.get("prev")
+        if prev is not None and state["k"] % 16 == 0 and state["t_fail"] is None and getattr(leg, "reeval", True):
+            # an earlier case evaluated again after a later one must still hold (caches, shared buffers between calls)
+            again = run_one(leg, prev, Stats(leg.name), known)
+            if again is not None:
+                stats.failure = {"case": {"__sequence__": [prev, case, prev]},
+                                 "problem": "held when first evaluated, fails when evaluated again after another case: " + again}
+                state["frozen"] = True   # history-dependent: not shrinkable by replaying single examples
+                raise AssertionError(again)
+        state["prev"] = case
 
     try:
         t()
@@ -310,7 +342,7 @@ def generic_shrink(leg, case, known):
         except Exception:
             return False
 
-    if not isinstance(case, dict):
+    if not isinstance(case, dict) or "__sequence__" in case:
         return case
     cur = dict(case)
     t0 = time.time()
